@@ -1,7 +1,553 @@
-//! End-to-end layers driven through the built `nitrogql-cli` binary.
-use crate::report::{Args, Reporter};
-use serde_json::{Value, json};
+//! C06 layer 2 (and C20's CLI clause) — source maps and module specifiers of whole projects,
+//! end to end through the built `nitrogql-cli` binary.
+//!
+//! E1 over project shapes (schema in 1-3 files, output layouts above / below / beside / in a
+//! sibling tree of the operations, every TypeScript extension the CLI rewrites, the three generate
+//! modes, resolvers beside or away from the schema file, CRLF, non-ASCII and astral text before a
+//! mapped token, imports between operation files). For every `*.map` the CLI writes:
+//!   shape      version 3, `file` = the generated file, `sources` / `names` arrays of strings;
+//!   sources    every entry, resolved relative to the map, is an input file of the right kind;
+//!   segments   decode (R-SMAP), generated positions ordered and inside the generated text,
+//!              source index inside `sources`, original position inside the source text;
+//!   tokens     a named segment points at a token start (R-LEX) and `names[i]` is that token, or
+//!              the token is a definition keyword; an unnamed segment points at a token start or
+//!              at "opening position + UTF-16 length of the opener's name" (a closing segment);
+//!   coverage   every schema type and field, and every operation / fragment (imported ones too),
+//!              has a named segment from its declaring identifier in the generated text to its
+//!              name token in the defining GraphQL file.
+//! And for every operation / resolvers declaration file: the `import type * as Schema from "<spec>"`
+//! specifier starts with ./ or ../ and, with its JS extension mapped back, names the schema output.
 
-pub fn c06_layer(_rep: &Reporter, _args: &Args) -> Value {
-    json!({"status": "not built yet"})
+use crate::c18;
+use crate::cli::{self, Project};
+use crate::explore::{Chooser, DistinctSet, ExploreCfg, explore, fnv};
+use crate::report::{Args, Reporter, Violation, stats_json};
+use crate::rparse::{Tok, lex, parse_exec, parse_ts};
+use crate::gql::*;
+use crate::smap::{decode_mappings, utf16_len};
+use serde_json::{Value as J, json};
+use std::collections::{BTreeMap, BTreeSet};
+use std::sync::Mutex;
+use std::sync::atomic::{AtomicU64, Ordering};
+use std::time::Duration;
+
+const MODES: [(&str, &str); 3] = [("with-loader-ts-5.0", "d.graphql.ts"), ("with-loader-ts-4.0", "graphql.d.ts"), ("standalone-ts-4.0", "graphql.ts")];
+/// (schema output extension, emits runtime, JS extension the CLI must write in specifiers)
+const EXTS: [(&str, bool, &str); 7] = [(".d.ts", false, ".js"), (".ts", true, ".js"), (".d.mts", false, ".mjs"), (".mts", true, ".mjs"), (".d.cts", false, ".cjs"), (".cts", false, ".cjs"), (".tsx", false, ".js")];
+const LAYOUTS: [&str; 5] = ["generated/schema", "schema-types", "src/types/schema", "out/a/b/schema", "src/deep/schema"];
+
+#[derive(Clone, Debug)]
+pub struct Case {
+    pub files: BTreeMap<String, String>,
+    pub yaml: String,
+    pub schema_out: String,
+    pub resolvers_out: Option<String>,
+    pub mode: usize,
+    pub tags: Vec<String>,
+}
+
+const UNI_SCHEMA: &str = "type Uni {\n  \"é\" e: Int \"😀\" a: Int b: Int\n}\nextend type Query { \"😀 astral\" uni: Uni }\n";
+const UNI_OP: &str = "query U1 { search(text: \"😀\") { __typename } } query U2 { uni { e a b } }\nfragment UF on Uni { a } # 😀\n";
+
+fn gen_case(c: &mut Chooser) -> Case {
+    let mut tags = vec![];
+    let base = c18::base_files();
+    let mut files: BTreeMap<String, String> = BTreeMap::new();
+    let (main_s, ext_s) = (base[c18::F_MAIN_S].clone(), base[c18::F_EXT_S].clone());
+    match c.choose("schema.files", 3) {
+        0 => {
+            files.insert("schema/main.graphql".into(), main_s);
+            files.insert("schema/ext.graphql".into(), ext_s);
+        }
+        1 => {
+            files.insert("schema/all.graphql".into(), format!("{main_s}{ext_s}"));
+            tags.push("one-schema-file".into());
+        }
+        _ => {
+            files.insert("schema/main.graphql".into(), main_s);
+            files.insert("schema/ext.graphql".into(), ext_s);
+            files.insert("schema/zextra.graphql".into(), crate::c17::EXTRA_SCHEMA.replace("scalar Url\nscalar Json\nscalar Big\n", "scalar Url\nscalar Json\nscalar Big\n").to_string());
+            files.insert("src/deep/orgs.graphql".into(), crate::c17::EXTRA_OP.into());
+            tags.push("three-schema-files".into());
+        }
+    }
+    for k in [c18::F_MAIN, c18::F_FRAGS, c18::F_SIMPLE, c18::F_OTHER, c18::F_SPACED] {
+        files.insert(k.to_string(), base[k].clone());
+    }
+    match c.choose("unicode", 2) {
+        0 => {}
+        _ => {
+            files.insert("schema/zuni.graphql".into(), UNI_SCHEMA.into());
+            files.insert("src/uni.graphql".into(), UNI_OP.into());
+            tags.push("non-ascii-before-mapped-tokens".into());
+        }
+    }
+    match c.choose("eol", 3) {
+        0 => {}
+        1 => {
+            for (k, v) in files.iter_mut().filter(|(k, _)| k.starts_with("src/")) {
+                let _ = k;
+                *v = v.replace('\n', "\r\n");
+            }
+            tags.push("crlf-operations".into());
+        }
+        _ => {
+            for (k, v) in files.iter_mut().filter(|(k, _)| k.starts_with("schema/")) {
+                let _ = k;
+                *v = v.replace('\n', "\r\n");
+            }
+            tags.push("crlf-schema".into());
+        }
+    }
+    let layout = c.choose("layout", LAYOUTS.len());
+    let ext = c.choose("schema.ext", EXTS.len());
+    let mode = c.choose("mode", 3);
+    let schema_out = format!("{}{}", LAYOUTS[layout], EXTS[ext].0);
+    let resolvers_out = match c.choose("resolvers", 3) {
+        0 => Some(LAYOUTS[layout].rsplit_once('/').map_or("resolvers.d.ts".to_string(), |x| format!("{}/resolvers.d.ts", x.0))),
+        1 => Some("generated/r/resolvers.d.ts".to_string()),
+        _ => None,
+    };
+    let mut y = String::from("schema: ./schema/*.graphql\ndocuments:\n  - ./src/**/*.graphql\nextensions:\n  nitrogql:\n    generate:\n");
+    y.push_str(&format!("      mode: {}\n      schemaOutput: ./{schema_out}\n", MODES[mode].0));
+    if let Some(r) = &resolvers_out {
+        y.push_str(&format!("      resolversOutput: ./{r}\n"));
+    }
+    if EXTS[ext].1 {
+        y.push_str("      emitSchemaRuntime: true\n");
+    }
+    y.push_str("      type:\n        scalarTypes:\n          Date: string\n          Url: string\n          Json: unknown\n          Big: string\n");
+    files.insert("graphql.config.yaml".into(), y.clone());
+    Case { files, yaml: y, schema_out, resolvers_out, mode, tags }
+}
+
+/// token starts of a GraphQL file: (line, char column) -> (utf16 column, token text if a name / punctuator)
+struct Toks {
+    by_char: BTreeMap<(u32, u32), (u32, String)>,
+    by_utf16: BTreeMap<(u32, u32), String>,
+    lines: Vec<String>,
+}
+
+fn toks(text: &str) -> Option<Toks> {
+    let lines: Vec<String> = {
+        // R-LEX line structure: LF, CRLF and lone CR end a line
+        let mut v = vec![String::new()];
+        let cs: Vec<char> = text.chars().collect();
+        let mut i = 0;
+        while i < cs.len() {
+            match cs[i] {
+                '\n' => v.push(String::new()),
+                '\r' if cs.get(i + 1) == Some(&'\n') => v.last_mut().unwrap().push('\r'),
+                '\r' => v.push(String::new()),
+                ch => v.last_mut().unwrap().push(ch),
+            }
+            i += 1;
+        }
+        v
+    };
+    let mut t = Toks { by_char: BTreeMap::new(), by_utf16: BTreeMap::new(), lines };
+    let u16col = |t: &Toks, line: u32, col: u32| -> u32 { t.lines.get(line as usize).map_or(col, |l| l.chars().take(col as usize).map(|c| c.len_utf16() as u32).sum()) };
+    let mut add = |t: &mut Toks, p: P, text: String| {
+        let u = u16col(t, p.line, p.col);
+        t.by_char.insert((p.line, p.col), (u, text.clone()));
+        t.by_utf16.insert((p.line, u), text);
+    };
+    for tk in lex(text).ok()? {
+        match &tk.t {
+            Tok::Name(s) => add(&mut t, tk.p, s.clone()),
+            Tok::Punct(p) => add(&mut t, tk.p, p.to_string()),
+            Tok::Int(s) | Tok::Float(s) => add(&mut t, tk.p, s.clone()),
+            Tok::Str(..) => add(&mut t, tk.p, "\"".into()),
+            Tok::Import(targets, _, pp) => {
+                add(&mut t, tk.p, "#import".into());
+                for n in targets.iter().flatten() {
+                    add(&mut t, n.p, n.s.clone());
+                }
+                add(&mut t, *pp, "\"".into());
+            }
+            Tok::Eof => {}
+        }
+    }
+    Some(t)
+}
+
+const KEYWORDS: [&str; 13] = ["type", "interface", "union", "enum", "input", "scalar", "directive", "schema", "extend", "query", "mutation", "subscription", "fragment"];
+
+pub struct Ctr {
+    pub runs: AtomicU64,
+    pub maps: AtomicU64,
+    pub segments: AtomicU64,
+    pub coverage_items: AtomicU64,
+    pub specifiers: AtomicU64,
+    pub char_vs_utf16: AtomicU64,
+}
+
+fn norm_join(dir: &str, rel: &str) -> String {
+    if dir.is_empty() { cli::norm_path(rel) } else { cli::norm_path(&format!("{dir}/{rel}")) }
+}
+fn dir_of(p: &str) -> &str {
+    p.rsplit_once('/').map_or("", |x| x.0)
+}
+
+#[allow(clippy::too_many_arguments)]
+fn check_map(rep: &Reporter, case: &Case, case_json: &dyn Fn(J) -> J, map_path: &str, map_text: &str, gen_text: &str, expected_sources: &BTreeSet<String>, tok_cache: &BTreeMap<String, Toks>, ctr: &Ctr, kind: &str) -> Option<Vec<(String, u32, u32, String, String)>> {
+    // returns named segments as (source file, line, utf16 col, name, generated text at the segment)
+    let bad = |key: String, what: String| rep.report(Violation { key: format!("e2e.{key}"), what: format!("{map_path}: {what}"), case: case_json(json!({"map": map_path, "map_text": map_text.chars().take(4000).collect::<String>()})) });
+    let v: J = match serde_json::from_str(map_text) {
+        Ok(v) => v,
+        Err(e) => {
+            bad(format!("map_not_json:{kind}"), format!("not JSON: {e}"));
+            return None;
+        }
+    };
+    let gen_name = map_path.strip_suffix(".map").unwrap_or(map_path).rsplit('/').next().unwrap_or("");
+    if v["version"] != json!(3) || v["file"].as_str() != Some(gen_name) || !v["mappings"].is_string() {
+        bad(format!("map_shape:{kind}"), format!("version/file/mappings malformed: version={} file={}", v["version"], v["file"]));
+        return None;
+    }
+    let (Some(sources), Some(names)) = (v["sources"].as_array(), v["names"].as_array()) else {
+        bad(format!("map_shape:{kind}"), "sources / names are not arrays".into());
+        return None;
+    };
+    let root = v["sourceRoot"].as_str().unwrap_or("");
+    let mut src_files: Vec<Option<String>> = vec![];
+    for (i, s) in sources.iter().enumerate() {
+        let Some(s) = s.as_str() else {
+            bad(format!("map_shape:{kind}"), format!("sources[{i}] is not a string"));
+            return None;
+        };
+        let res = norm_join(dir_of(map_path), &format!("{root}{s}"));
+        if !case.files.contains_key(&res) || !res.ends_with(".graphql") {
+            bad(format!("source_does_not_resolve:{kind}"), format!("sources[{i}] = {s:?} resolves to {res:?}, which is not an input file"));
+            src_files.push(None);
+        } else {
+            if !expected_sources.contains(&res) {
+                bad(format!("source_of_wrong_file:{kind}"), format!("sources[{i}] = {res:?} is not among the files this output is generated from ({expected_sources:?})"));
+            }
+            src_files.push(Some(res));
+        }
+    }
+    for e in expected_sources {
+        if !src_files.iter().flatten().any(|s| s == e) {
+            bad(format!("source_missing:{kind}"), format!("{e} contributes to this file but is not listed in sources"));
+        }
+    }
+    let dec = match decode_mappings(v["mappings"].as_str().unwrap()) {
+        Ok(d) => d,
+        Err(e) => {
+            bad(format!("mappings_undecodable:{kind}"), e);
+            return None;
+        }
+    };
+    ctr.maps.fetch_add(1, Ordering::Relaxed);
+    let gen_lines: Vec<&str> = gen_text.split('\n').collect();
+    let mut named = vec![];
+    // openers seen so far per (source, line): (utf16 col, name length) for closing segments
+    let mut openers: BTreeSet<(i128, i128, i128)> = BTreeSet::new();
+    let mut last: Option<(usize, i128)> = None;
+    for s in &dec.segments {
+        ctr.segments.fetch_add(1, Ordering::Relaxed);
+        if let Some((l, cprev)) = last
+            && l == s.gen_line
+            && s.gen_col < cprev
+        {
+            bad(format!("generated_columns_not_ordered:{kind}"), format!("generated line {l}: column {} after {cprev}", s.gen_col));
+        }
+        last = Some((s.gen_line, s.gen_col));
+        let Some(gl) = gen_lines.get(s.gen_line) else {
+            bad(format!("generated_position_outside_text:{kind}"), format!("segment on generated line {} but the file has {} lines", s.gen_line, gen_lines.len()));
+            continue;
+        };
+        if s.gen_col < 0 || s.gen_col as usize > utf16_len(gl) {
+            bad(format!("generated_position_outside_text:{kind}"), format!("generated line {} column {} is outside the line (length {})", s.gen_line, s.gen_col, utf16_len(gl)));
+            continue;
+        }
+        let Some((si, ol, oc)) = s.src else { continue };
+        if si < 0 || si as usize >= sources.len() {
+            bad(format!("source_index_out_of_range:{kind}"), format!("segment at generated {}:{} has source index {si} ({} sources)", s.gen_line, s.gen_col, sources.len()));
+            continue;
+        }
+        let Some(sf) = &src_files[si as usize] else { continue };
+        let tk = &tok_cache[sf];
+        if ol < 0 || oc < 0 || ol as usize >= tk.lines.len() || oc as usize > utf16_len(&tk.lines[ol as usize]) {
+            bad(format!("original_position_outside_source:{kind}"), format!("segment at generated {}:{} points at {sf}:{ol}:{oc}, outside the file", s.gen_line, s.gen_col));
+            continue;
+        }
+        let key = (ol as u32, oc as u32);
+        let at16 = tk.by_utf16.get(&key);
+        // generated text at the segment (utf16 col -> char index)
+        let gen_at: String = {
+            let mut u = 0usize;
+            let mut out = String::new();
+            for ch in gl.chars() {
+                if u >= s.gen_col as usize {
+                    out.push(ch);
+                    if out.chars().count() >= 40 {
+                        break;
+                    }
+                }
+                u += ch.len_utf16();
+            }
+            out
+        };
+        match s.name {
+            Some(ni) => {
+                let Some(name) = names.get(ni as usize).and_then(|n| n.as_str()) else {
+                    bad(format!("name_index_out_of_range:{kind}"), format!("name index {ni} ({} names)", names.len()));
+                    continue;
+                };
+                match at16 {
+                    Some(tok) => {
+                        if tok != name && !KEYWORDS.contains(&tok.as_str()) {
+                            bad(format!("name_is_not_the_token:{kind}"), format!("names[{ni}] = {name:?} but {sf}:{ol}:{oc} is the token {tok:?}"));
+                        }
+                    }
+                    None => {
+                        // column given in characters instead of UTF-16 units?
+                        if let Some((_, tok)) = tk.by_char.get(&key).filter(|(u, _)| *u != key.1) {
+                            ctr.char_vs_utf16.fetch_add(1, Ordering::Relaxed);
+                            bad(format!("original_column_in_chars_not_utf16:{kind}"), format!("segment for {name:?} points at {sf}:{ol}:{oc}: that is the character column of token {tok:?}, whose UTF-16 column differs (astral character earlier on the line)"));
+                        } else {
+                            bad(format!("original_position_not_a_token_start:{kind}"), format!("named segment {name:?} points at {sf}:{ol}:{oc} = {:?}, not the start of a token", tk.lines[ol as usize].chars().skip(oc as usize).take(12).collect::<String>()));
+                        }
+                        continue;
+                    }
+                }
+                openers.insert((si, ol, oc + utf16_len(name) as i128));
+                named.push((sf.clone(), ol as u32, oc as u32, name.to_string(), gen_at));
+            }
+            None => {
+                let closing = openers.contains(&(si, ol, oc));
+                if at16.is_none() && !closing {
+                    let astral_before = tk.lines[ol as usize].chars().take(oc as usize + 2).any(|ch| ch.len_utf16() == 2);
+                    if astral_before || tk.by_char.get(&key).is_some_and(|(u, _)| *u != key.1) {
+                        ctr.char_vs_utf16.fetch_add(1, Ordering::Relaxed);
+                        bad(format!("original_column_in_chars_not_utf16:{kind}"), format!("unnamed segment points at {sf}:{ol}:{oc}: a character column, not a UTF-16 column"));
+                    } else {
+                        bad(format!("original_position_not_a_token_start:{kind}"), format!("unnamed segment at generated {}:{} points at {sf}:{ol}:{oc} = {:?}: neither a token start nor the end of a mapped name", s.gen_line, s.gen_col, tk.lines[ol as usize].chars().skip(oc as usize).take(12).collect::<String>()));
+                    }
+                }
+            }
+        }
+    }
+    Some(named)
+}
+
+fn check_case(rep: &Reporter, case: &Case, c: &Chooser, ctr: &Ctr) {
+    let dir = cli::thread_dir("c06");
+    let mut p = Project::default();
+    p.files = case.files.clone();
+    cli::materialize(&dir, &p);
+    let args: Vec<String> = ["--config-file", "graphql.config.yaml", "--output-format", "json", "generate"].iter().map(|s| s.to_string()).collect();
+    let r = cli::run(&dir, &args, &[], Duration::from_secs(30));
+    ctr.runs.fetch_add(1, Ordering::Relaxed);
+    let case_json = |extra: J| json!({"layer": "e2e", "tags": case.tags, "config": case.yaml, "picks": c.picks(), "deviations": c.deviation_labels(), "files": case.files, "detail": extra});
+    if r.code != Some(0) {
+        rep.report(Violation { key: "e2e.generate_fails_on_valid_project".into(), what: format!("generate exits with {:?} on a valid project", r.code), case: case_json(json!({"stdout": r.stdout, "stderr": r.stderr})) });
+        return;
+    }
+    let get = |n: &str| r.after.get(n).map(|b| String::from_utf8_lossy(b).to_string());
+    let schema_files: BTreeSet<String> = case.files.keys().filter(|k| k.starts_with("schema/")).cloned().collect();
+    let op_files: Vec<String> = case.files.keys().filter(|k| k.starts_with("src/") && k.ends_with(".graphql")).cloned().collect();
+    let mut tok_cache = BTreeMap::new();
+    for f in schema_files.iter().chain(op_files.iter()) {
+        match toks(&case.files[f]) {
+            Some(t) => {
+                tok_cache.insert(f.clone(), t);
+            }
+            None => {
+                rep.report(Violation { key: "machinery.e2e_lex".into(), what: format!("R-LEX cannot read {f}"), case: case_json(json!({})) });
+                return;
+            }
+        }
+    }
+    // ---- schema + resolvers maps
+    let mut schema_named = vec![];
+    for (out, kind) in [(Some(case.schema_out.clone()), "schema"), (case.resolvers_out.clone(), "resolvers")] {
+        let Some(out) = out else { continue };
+        let (Some(gen_text), Some(map)) = (get(&out), get(&format!("{out}.map"))) else {
+            rep.report(Violation { key: format!("e2e.output_missing:{kind}"), what: format!("{out} or its map was not written"), case: case_json(json!({"written": r.written()})) });
+            continue;
+        };
+        if let Some(named) = check_map(rep, case, &case_json, &format!("{out}.map"), &map, &gen_text, &schema_files, &tok_cache, ctr, kind)
+            && kind == "schema"
+        {
+            schema_named = named;
+        }
+        if kind == "resolvers" {
+            check_specifier(rep, case, &case_json, &out, &gen_text, ctr);
+        }
+    }
+    // coverage: every schema type and field
+    let mut want: Vec<(String, Vec<(u32, u32)>, String, &'static str)> = vec![]; // file, acceptable header positions (utf16), name, what
+    let schema_text = get(&case.schema_out).unwrap_or_default();
+    let declared = |n: &str| schema_text.contains(&format!("type {n} =")) || schema_text.contains(&format!("type __tmp_{n} ="));
+    for f in &schema_files {
+        let Ok(doc) = parse_ts(&case.files[f]) else { continue };
+        let tk = &tok_cache[f];
+        let c16 = |p: P| tk.by_char.get(&(p.line, p.col)).map_or(p.col, |x| x.0);
+        for d in &doc.defs {
+            if matches!(d.kind, TsKind::Schema | TsKind::Directive) {
+                continue;
+            }
+            // "for every definition printed in G": the alias must be declared in the generated text;
+            // fields are printed as properties only for object and input object types
+            let Some(n) = &d.name else { continue };
+            if !declared(&n.s) {
+                continue;
+            }
+            if !d.ext {
+                want.push((f.clone(), vec![(n.p.line, c16(n.p)), (d.p_kw.line, c16(d.p_kw)), (d.p_first.line, c16(d.p_first))], n.s.clone(), "type"));
+            }
+            if d.kind == TsKind::Object {
+                for fl in &d.fields {
+                    want.push((f.clone(), vec![(fl.name.p.line, c16(fl.name.p))], fl.name.s.clone(), "field"));
+                }
+            }
+            for fl in &d.input_fields {
+                want.push((f.clone(), vec![(fl.name.p.line, c16(fl.name.p))], fl.name.s.clone(), "input-field"));
+            }
+        }
+    }
+    for (f, poss, name, what) in &want {
+        ctr.coverage_items.fetch_add(1, Ordering::Relaxed);
+        let (l, col) = &poss[0];
+        let hit = schema_named.iter().any(|(sf, sl, sc, sn, gtext)| sf == f && poss.contains(&(*sl, *sc)) && sn == name && (gtext.starts_with(name.as_str()) || gtext.starts_with(&format!("\"{name}\"")) || gtext.starts_with(&format!("__tmp_{name}"))));
+        let astral = tok_cache[f].lines.get(*l as usize).is_some_and(|ln| ln.chars().scan(0u32, |u, ch| { let at = *u; *u += ch.len_utf16() as u32; Some((at, ch)) }).any(|(at, ch)| at < *col && ch.len_utf16() == 2));
+        if !hit && astral {
+            // consequence of columns being counted in characters: reported once under that key
+            rep.report(Violation { key: "e2e.original_column_in_chars_not_utf16:schema".into(), what: format!("{what} `{name}` at {f}:{l}:{col} follows an astral character on its line: its segment carries a character column"), case: case_json(json!({"item": name})) });
+        } else if !hit {
+            rep.report(Violation {
+                key: format!("e2e.not_mapped:schema:{what}"),
+                what: format!("{}.map: the {what} `{name}` defined at {f}:{l}:{col} has no named segment from its declaring identifier", case.schema_out),
+                case: case_json(json!({"item": name, "at": format!("{f}:{l}:{col}")})),
+            });
+        }
+    }
+    // ---- operation maps
+    // definitions of every operation file (for imported fragments)
+    // name, name position, definition (keyword) position
+    let mut defs_by_file: BTreeMap<String, Vec<(String, u32, u32, u32, u32)>> = BTreeMap::new();
+    for f in &op_files {
+        let Ok(doc) = parse_exec(&case.files[f]) else { continue };
+        let tk = &tok_cache[f];
+        let c16 = |p: P| tk.by_char.get(&(p.line, p.col)).map_or(p.col, |x| x.0);
+        for d in &doc.defs {
+            match d {
+                ExecDef::Op { name: Some(n), p, .. } => defs_by_file.entry(f.clone()).or_default().push((n.s.clone(), n.p.line, c16(n.p), p.line, c16(*p))),
+                ExecDef::Frag { name, p, .. } => defs_by_file.entry(f.clone()).or_default().push((name.s.clone(), name.p.line, c16(name.p), p.line, c16(*p))),
+                _ => {}
+            }
+        }
+    }
+    for f in &op_files {
+        let stem = f.strip_suffix(".graphql").unwrap();
+        let out = format!("{stem}.{}", MODES[case.mode].1);
+        let (Some(gen_text), Some(map)) = (get(&out), get(&format!("{out}.map"))) else {
+            rep.report(Violation { key: "e2e.output_missing:operation".into(), what: format!("{out} or its map was not written"), case: case_json(json!({"written": r.written()})) });
+            continue;
+        };
+        // files this declaration is generated from: the schema files, itself, and the files it imports fragments from
+        let mut expected: BTreeSet<String> = schema_files.clone();
+        expected.insert(f.clone());
+        let mut imported: Vec<String> = vec![];
+        collect_imports(case, f, &mut imported);
+        for i in &imported {
+            expected.insert(i.clone());
+        }
+        let named = check_map(rep, case, &case_json, &format!("{out}.map"), &map, &gen_text, &expected, &tok_cache, ctr, "operation");
+        check_specifier(rep, case, &case_json, &out, &gen_text, ctr);
+        let Some(named) = named else { continue };
+        // coverage: own definitions
+        for (name, l, col, kl, kc) in defs_by_file.get(f).into_iter().flatten() {
+            ctr.coverage_items.fetch_add(1, Ordering::Relaxed);
+            let astral = tok_cache[f].lines.get(*l as usize).is_some_and(|ln| ln.chars().scan(0u32, |u, ch| { let at = *u; *u += ch.len_utf16() as u32; Some((at, ch)) }).any(|(at, ch)| at < *col && ch.len_utf16() == 2));
+            let hit = named.iter().any(|(sf, sl, sc, sn, gtext)| sf == f && ((sl == l && sc == col) || (sl == kl && sc == kc)) && sn == name && gtext.to_lowercase().starts_with(&name.to_lowercase()));
+            if !hit && astral {
+                rep.report(Violation { key: "e2e.original_column_in_chars_not_utf16:operation".into(), what: format!("`{name}` at {f}:{l}:{col} follows an astral character on its line: its segment carries a character column"), case: case_json(json!({"item": name})) });
+            } else if !hit {
+                rep.report(Violation { key: "e2e.not_mapped:operation:own-definition".into(), what: format!("{out}.map: `{name}` defined at {f}:{l}:{col} has no named segment from its declaring identifier"), case: case_json(json!({"item": name})) });
+            }
+        }
+        // coverage: imported fragments that the generated text declares
+        for i in &imported {
+            for (name, l, col, kl, kc) in defs_by_file.get(i).into_iter().flatten() {
+                if !gen_text.contains(&format!("type {name} =")) && !gen_text.contains(&format!("const {name}:")) {
+                    continue;
+                }
+                ctr.coverage_items.fetch_add(1, Ordering::Relaxed);
+                if !named.iter().any(|(sf, sl, sc, sn, _)| sf == i && ((sl == l && sc == col) || (sl == kl && sc == kc)) && sn == name) {
+                    rep.report(Violation { key: "e2e.not_mapped:operation:imported-fragment".into(), what: format!("{out}.map: the imported fragment `{name}` (defined at {i}:{l}:{col}) is declared in the generated file but no named segment leads to its definition"), case: case_json(json!({"item": name, "imported_from": i})) });
+                }
+            }
+        }
+    }
+}
+
+/// files `f` imports fragments from, transitively (path spellings resolved lexically)
+fn collect_imports(case: &Case, f: &str, out: &mut Vec<String>) {
+    let Ok(tokens) = lex(&case.files[f]) else { return };
+    for t in tokens {
+        if let Tok::Import(_, path, _) = t.t {
+            let target = norm_join(dir_of(f), &path);
+            if case.files.contains_key(&target) && target != f && !out.contains(&target) {
+                out.push(target.clone());
+                collect_imports(case, &target, out);
+            }
+        }
+    }
+}
+
+/// `import type * as Schema from "<spec>"` must lead to the schema output file
+fn check_specifier(rep: &Reporter, case: &Case, case_json: &dyn Fn(J) -> J, out: &str, gen_text: &str, ctr: &Ctr) {
+    for line in gen_text.lines() {
+        let Some(rest) = line.trim().strip_prefix("import type * as ") else { continue };
+        let Some(spec) = rest.split('"').nth(1) else { continue };
+        ctr.specifiers.fetch_add(1, Ordering::Relaxed);
+        let bad = |key: &str, what: String| rep.report(Violation { key: format!("e2e.specifier.{key}"), what: format!("{out}: {what}"), case: case_json(json!({"specifier": spec, "schema_output": case.schema_out})) });
+        if !(spec.starts_with("./") || spec.starts_with("../")) {
+            bad("not_relative", format!("module specifier {spec:?} does not start with ./ or ../"));
+            continue;
+        }
+        let target = norm_join(dir_of(out), spec);
+        // map the JS extension back to every TypeScript spelling it can stand for
+        let cands: Vec<String> = EXTS.iter().filter(|e| target.ends_with(e.2)).map(|e| format!("{}{}", target.strip_suffix(e.2).unwrap(), e.0)).collect();
+        if !cands.iter().any(|c| *c == case.schema_out) {
+            let ext = EXTS.iter().find(|e| case.schema_out.ends_with(e.0)).map_or("?", |e| e.0);
+            bad(&format!("does_not_reach_schema_output[{ext}]"), format!("module specifier {spec:?} resolves to {target:?}, which stands for none of the spellings of the schema output {:?}", case.schema_out));
+        }
+    }
+}
+
+pub fn c06_layer(rep: &Reporter, args: &Args) -> J {
+    let ctr = Ctr { runs: AtomicU64::new(0), maps: AtomicU64::new(0), segments: AtomicU64::new(0), coverage_items: AtomicU64::new(0), specifiers: AtomicU64::new(0), char_vs_utf16: AtomicU64::new(0) };
+    let distinct = DistinctSet::new();
+    let sample: Mutex<Option<J>> = Mutex::new(None);
+    let (dev, budget) = if args.quick() { (2, 40) } else { (4, 1500) };
+    let stats = explore(&ExploreCfg { max_dev: dev, threads: args.threads, budget: Duration::from_secs(budget) }, |c: &mut Chooser| {
+        let case = gen_case(c);
+        if !distinct.insert(fnv(format!("{:?}", case.files).as_bytes())) {
+            return;
+        }
+        if c.deviations() == 1 {
+            let mut s = sample.lock().unwrap();
+            if s.is_none() {
+                *s = Some(json!({"config": case.yaml, "tags": case.tags}));
+            }
+        }
+        check_case(rep, &case, c, &ctr);
+    });
+    cli::cleanup("c06");
+    json!({
+        "explorer": stats_json(&stats),
+        "projects_run_through_the_cli": ctr.runs.load(Ordering::Relaxed),
+        "distinct_projects": distinct.len(),
+        "maps_decoded": ctr.maps.load(Ordering::Relaxed),
+        "segments_checked": ctr.segments.load(Ordering::Relaxed),
+        "coverage_items_demanded(types, fields, operations, fragments)": ctr.coverage_items.load(Ordering::Relaxed),
+        "module_specifiers_checked": ctr.specifiers.load(Ordering::Relaxed),
+        "segments_with_character_instead_of_utf16_column": ctr.char_vs_utf16.load(Ordering::Relaxed),
+        "sample": sample.lock().unwrap().clone().unwrap_or(J::Null),
+    })
 }
